@@ -29,6 +29,8 @@ func init() {
 	reg.Register("c17.reader", "C17", reader)
 	reg.Register("c17.faults", "C17", faults)
 	reg.Register("c17.timerule", "C17", timerule)
+	reg.Register("c17.levels", "C17", levels)
+	reg.Register("c17.options", "C17", options)
 }
 
 // libGen is the part of the library's generators the monitors drive (drbg.DRBG).
@@ -52,6 +54,10 @@ type cfg struct {
 
 	h ref.Hash
 	b ref.Cipher
+
+	// primary configurations (SM3, SHA-256, SHA-512, every cipher) get the full number of random histories; the other
+	// hash functions of SP 800-90A table 2 differ only in outlen / block length / seedlen and get two fifths of it
+	primary bool
 }
 
 func (g cfg) name() string { return g.mech + "/" + g.alg + "/" + g.mode.String() }
@@ -82,16 +88,21 @@ func sm3New() hash.Hash { return sm3.New() }
 func configs() []cfg {
 	var out []cfg
 	type hh struct {
-		alg string
-		n   func() hash.Hash
-		h   ref.Hash
+		alg     string
+		n       func() hash.Hash
+		h       ref.Hash
+		primary bool
 	}
-	hashes := []hh{{"sm3", sm3New, ref.SM3}, {"sha256", sha256.New, ref.SHA256}, {"sha512", sha512.New, ref.SHA512},
-		{"sha1", sha1.New, ref.SHA1}, {"sha384", sha512.New384, ref.SHA384}}
+	// every row of SP 800-90A Rev.1 table 2 (seedlen 440 bits for outlen <= 256, else 888 - also for the truncated
+	// SHA-512 variants with their 1024-bit blocks) and SM3
+	hashes := []hh{{"sm3", sm3New, ref.SM3, true}, {"sha256", sha256.New, ref.SHA256, true}, {"sha512", sha512.New, ref.SHA512, true},
+		{"sha1", sha1.New, ref.SHA1, false}, {"sha384", sha512.New384, ref.SHA384, false},
+		{"sha224", sha256.New224, ref.SHA224, false}, {"sha512_224", sha512.New512_224, ref.SHA512_224, false},
+		{"sha512_256", sha512.New512_256, ref.SHA512_256, false}}
 	for _, mech := range []string{"hash", "hmac"} {
 		for _, h := range hashes {
 			for _, m := range []ref.Mode{ref.NIST, ref.GM} {
-				out = append(out, cfg{mech: mech, alg: h.alg, mode: m, newHash: h.n, h: h.h})
+				out = append(out, cfg{mech: mech, alg: h.alg, mode: m, newHash: h.n, h: h.h, primary: h.primary})
 			}
 		}
 	}
@@ -104,8 +115,21 @@ func configs() []cfg {
 	for _, c := range []cc{{"sm4", sm4.NewCipher, 16, ref.SM4}, {"aes128", aes.NewCipher, 16, ref.AES128},
 		{"aes192", aes.NewCipher, 24, ref.AES192}, {"aes256", aes.NewCipher, 32, ref.AES256}} {
 		for _, m := range []ref.Mode{ref.NIST, ref.GM} {
-			out = append(out, cfg{mech: "ctr", alg: c.alg, mode: m, newCipher: c.n, keyLen: c.kl, b: c.b})
+			out = append(out, cfg{mech: "ctr", alg: c.alg, mode: m, newCipher: c.n, keyLen: c.kl, b: c.b, primary: true})
 		}
+	}
+	return out
+}
+
+// faultConfigs: the configurations of the entropy-fault enumeration. How the wrapper treats a failing source does not
+// depend on the hash function: the three hashes added for table 2 are left out there.
+func faultConfigs() []cfg {
+	var out []cfg
+	for _, g := range configs() {
+		if g.alg == "sha224" || g.alg == "sha512_224" || g.alg == "sha512_256" {
+			continue
+		}
+		out = append(out, g)
 	}
 	return out
 }
@@ -238,7 +262,8 @@ type pair struct {
 	trace []string
 	// monotonic bracket of the last successful (re)seed call
 	seedStart, seedReturn time.Time
-	dead                  bool // the history cannot be continued (library and model diverged on a verdict)
+	dead                  bool   // the history cannot be continued (library and model diverged on a verdict)
+	last                  *arena // caller memory of the last call (diagnostics)
 }
 
 func (p *pair) logf(format string, a ...any) {
@@ -251,6 +276,9 @@ func (p *pair) fail(kind, format string, a ...any) {
 		h = "..." + h[len(h)-3500:]
 	}
 	p.c.Detail("history", h)
+	if p.last != nil {
+		p.c.Detail("caller_memory_of_the_last_call", p.last.layout())
+	}
 	if p.model != nil {
 		p.c.Detail("model_state", p.model.State())
 	}
@@ -261,26 +289,30 @@ func (p *pair) fail(kind, format string, a ...any) {
 // ("ok", "reseed", "size", "time", "time-gap", ...) for class keys.
 func (p *pair) generate(n int, addl []byte) string {
 	c := p.c
-	buf := bytes.Repeat([]byte{fence}, n+16)
-	out := buf[8 : 8+n : 8+n]
-	for i := range out {
-		out[i] = marker
+	// output buffer (marker-filled) and additional input in caller memory laid out by lay (arena.go)
+	mk := bytes.Repeat([]byte{marker}, n)
+	if n == 0 && c.R.Bool() {
+		mk = nil // a request for nothing through a nil slice
 	}
+	a, sl := lay(c.R, part{"output", mk, true}, part{"additional input", addl, false})
+	out, ad := sl[0], sl[1]
+	defer a.scribble()
+	p.last = a
 	ctr := p.model.Counter()
 	p.logf("Generate(n=%d, addl=%d) @counter=%d", n, len(addl), ctr)
 	var err error
 	t0 := time.Now()
-	okCall := c.Call("Generate", func() { err = p.lib.Generate(out, addl) })
+	okCall := c.Call("Generate", func() { err = p.lib.Generate(out, ad) })
 	t1 := time.Now()
 	if !okCall {
 		p.dead = true
 		return "panic"
 	}
-	for i := 0; i < 8; i++ {
-		if buf[i] != fence || buf[8+n+i] != fence {
-			p.fail("oob", "%s Generate(n=%d) wrote outside the output buffer", p.g.name(), n)
-			break
-		}
+	c.Event("caller_memory_checks", 1)
+	if ch := a.changed(); ch != "" {
+		p.fail("oob", "%s Generate(n=%d, addl=%d) wrote outside the %d bytes of the output slice: %s", p.g.name(), n, len(addl), n, ch)
+		p.dead = true
+		return "oob"
 	}
 	gm := p.g.mode == ref.GM
 	exhausted := p.model.NeedReseed()
@@ -374,14 +406,23 @@ func (p *pair) generate(n int, addl []byte) string {
 // reseed performs one Reseed on both sides and judges it.
 func (p *pair) reseed(e, addl []byte) string {
 	c := p.c
+	a, sl := lay(c.R, part{"entropy", e, false}, part{"additional input", addl, false})
+	defer a.scribble()
+	p.last = a
 	p.logf("Reseed(entropy=%d, addl=%d) @counter=%d", len(e), len(addl), p.model.Counter())
 	var err error
 	t0 := time.Now()
-	okCall := c.Call("Reseed", func() { err = p.lib.Reseed(e, addl) })
+	okCall := c.Call("Reseed", func() { err = p.lib.Reseed(sl[0], sl[1]) })
 	t1 := time.Now()
 	if !okCall {
 		p.dead = true
 		return "panic"
+	}
+	c.Event("caller_memory_checks", 1)
+	if ch := a.changed(); ch != "" {
+		p.fail("oob", "%s Reseed(entropy=%d, addl=%d) modified the caller's memory: %s", p.g.name(), len(e), len(addl), ch)
+		p.dead = true
+		return "oob"
 	}
 	m2 := p.model.Clone()
 	merr := m2.Reseed(e, addl)
